@@ -193,3 +193,56 @@ func clip(s string) string {
 	}
 	return s
 }
+
+// TestDifferentialLongPath: names resolved from a Root are not subject to PATH_MAX, paths passed as one
+// string are - in the real file system and in the model alike.
+func TestDifferentialLongPath(t *testing.T) {
+	Reset(nil)
+	dir := t.TempDir()
+	realRoot, err := os.OpenRoot(dir)
+	if err != nil {
+		t.Fatal(err)
+	}
+	if err := MkdirAll("/base", 0o755); err != nil {
+		t.Fatal(err)
+	}
+	simRoot, err := OpenRoot("/base")
+	if err != nil {
+		t.Fatal(err)
+	}
+	parts := make([]string, 100)
+	for i := range parts {
+		parts[i] = strings.Repeat("d", 48)
+	}
+	deep := strings.Join(parts, "/")
+	check := func(what string, re, se error) {
+		t.Helper()
+		if errClass(re) != errClass(se) {
+			t.Fatalf("%s: real %v, model %v", what, re, se)
+		}
+	}
+	check("root mkdirall", realRoot.MkdirAll(deep, 0o755), simRoot.MkdirAll(deep, 0o755))
+	rf, re := realRoot.Create(deep + "/f")
+	sf, se := simRoot.Create(deep + "/f")
+	check("root create", re, se)
+	if re == nil {
+		rf.Close()
+	}
+	if se == nil {
+		sf.Close()
+	}
+	_, re = realRoot.Stat(deep + "/f")
+	_, se = simRoot.Stat(deep + "/f")
+	check("root stat", re, se)
+	check("root rename", realRoot.Rename(deep+"/f", deep+"/g"), simRoot.Rename(deep+"/f", deep+"/g"))
+	_, re = os.Lstat(filepath.Join(dir, deep, "g"))
+	_, se = Lstat("/base/" + deep + "/g")
+	check("absolute lstat", re, se)
+	if errClass(re) != "toolong" {
+		t.Fatalf("expected ENAMETOOLONG from the real file system for a %d-byte path, got %v", len(filepath.Join(dir, deep, "g")), re)
+	}
+	_, re = os.ReadDir(filepath.Join(dir, deep))
+	_, se = ReadDir("/base/" + deep)
+	check("absolute readdir", re, se)
+	check("root remove", realRoot.Remove(deep+"/g"), simRoot.Remove(deep+"/g"))
+}
